@@ -181,7 +181,14 @@ static bool open_prefix_tag_unknown(const std::string &s) {
 static inline uint64_t ld64(const void *p) { uint64_t v; memcpy(&v, p, 8); return v; }
 static inline uint64_t mixh(uint64_t x) { x *= 0x9e3779b97f4a7c15ULL; return x ^ (x >> 29); }
 void PatSet::build(const std::string &s) {
-  all.clear(); table.clear(); mask = 0;
+  all.clear(); table.clear(); mask = 0; shorts.clear();
+  if (s.size() >= 6 && s.size() < 8) {
+    // a passphrase shorter than a window: the whole of it, in the encodings that keep one byte per character
+    // (6 random bytes turn up by chance in a 16 KiB region once in 10^10 scans)
+    std::string a, b, c2;
+    for (unsigned char ch : s) { a += (char)((ch << 1) & 0xff); b += (char)(ch ^ 0x36); c2 += (char)(ch ^ 0x5c); }
+    shorts.emplace_back(s, "raw"); shorts.emplace_back(a, "DES-key(<<1)"); shorts.emplace_back(b, "HMAC-ipad(^0x36)"); shorts.emplace_back(c2, "HMAC-opad(^0x5c)");
+  }
   std::vector<std::pair<std::string, const char *>> enc;
   enc.emplace_back(s, "raw");
   { std::string e; for (unsigned char c : s) { e += (char)c; e += '\0'; } enc.emplace_back(e, "UCS-2LE"); }
@@ -217,8 +224,12 @@ void PatSet::build(const std::string &s) {
   }
 }
 NOASAN const char *PatSet::scan(const void *p, size_t n, size_t *off) const {
-  if (all.empty() || n < 8) return nullptr;
   const unsigned char *c = (const unsigned char *)p;
+  for (auto &sp : shorts) {
+    size_t L = sp.first.size(); const unsigned char *q = (const unsigned char *)sp.first.data();
+    for (size_t i = 0; i + L <= n; i++) { if (c[i] != q[0]) continue; size_t j = 1; while (j < L && c[i + j] == q[j]) j++; if (j == L) { if (off) *off = i; return sp.second; } }
+  }
+  if (all.empty() || n < 8) return nullptr;
   const uint64_t *tb = table.data();
   for (size_t i = 0; i + 8 <= n; i++) {
     uint64_t v; __builtin_memcpy(&v, c + i, 8);
@@ -309,20 +320,29 @@ void task_start(int) {}
 void task_finish(int) {}
 void api_boundary(int, int, bool) {}
 struct Boot { void (*body)(int, void *); void *arg; int task; };
-#ifdef SIM_RNG
-// Coarse scheduler for the fallback-entropy workload: caller threads are real pthreads holding a baton; the only
-// preemption points are the simulated system calls (getentropy/getrandom/syscall/open/read/close, before and
-// after each) - exactly the places where a real thread can lose the CPU for long.  Seeded; one runnable at a time.
+// Coarse scheduler for multi-task plans of the uninstrumented engines (the fallback-entropy workload, and the
+// large-memory crowds of C08): caller threads are real pthreads holding a baton; the only preemption points are the
+// simulated system calls (getentropy/getrandom/syscall/open/read/close) and the allocator/mapping requests - exactly the
+// places where a real thread can lose the CPU for long.  Seeded; one runnable at a time.  With hold_after_mmap every
+// task is parked right after its mapping was granted until all others have theirs (or are done): everything the
+// callers map is live at the same time, at native speed, deterministically.
+bool g_co_hold_after_mmap = false;
 static pthread_mutex_t co_mu = PTHREAD_MUTEX_INITIALIZER;
 static pthread_cond_t co_cv = PTHREAD_COND_INITIALIZER;
-static int co_cur = -1, co_n = 0; static bool co_done[MAX_TASKS]; static Rng co_rng; static long co_switches;
+static int co_cur = -1, co_n = 0; static bool co_done[MAX_TASKS], co_mapped[MAX_TASKS]; static Rng co_rng; static long co_switches;
 static void co_wait(int me) { while (co_cur != me) pthread_cond_wait(&co_cv, &co_mu); }
 static int co_pick(int me) { std::vector<int> c; for (int t = 0; t < co_n; t++) if (t != me && !co_done[t]) c.push_back(t); return c.empty() ? -1 : c[co_rng.below(c.size())]; }
 void co_yield_point(const char *where) {
   if (co_n < 2) return;
   int me = cur_task();
   pthread_mutex_lock(&co_mu);
-  if (co_rng.chance(1, 3)) { int to = co_pick(me); if (to >= 0) { ev(vfmt("switch t%d->t%d at %s", me, to, where)); co_switches++; co_cur = to; pthread_cond_broadcast(&co_cv); co_wait(me); } }
+  bool hold = g_co_hold_after_mmap && !strcmp(where, "mmap-granted");
+  if (hold) co_mapped[me] = true;
+  if (hold || co_rng.chance(1, 3)) {
+    int to = -1;
+    if (hold) { std::vector<int> c; for (int t = 0; t < co_n; t++) if (t != me && !co_done[t] && !co_mapped[t]) c.push_back(t); if (!c.empty()) to = c[co_rng.below(c.size())]; }   // first those that hold nothing yet
+    if (to < 0) to = co_pick(me);
+    if (to >= 0) { ev(vfmt("switch t%d->t%d at %s", me, to, where)); co_switches++; co_cur = to; pthread_cond_broadcast(&co_cv); co_wait(me); } }
   pthread_mutex_unlock(&co_mu);
 }
 static void *boot(void *p) {
@@ -339,7 +359,7 @@ void run_tasks(int n, void (*body)(int, void *), void *arg, size_t) {
     Boot b{body, arg, 0}; pthread_t th; if (pthread_create(&th, &a, boot, &b)) { perror("pthread_create"); _exit(2); }
     pthread_join(th, nullptr); pthread_attr_destroy(&a); return;
   }
-  co_rng = Rng(g_run_seed, "co-schedule"); for (auto &d : co_done) d = false;
+  co_rng = Rng(g_run_seed, "co-schedule"); for (auto &d : co_done) d = false; for (auto &d : co_mapped) d = false;
   Boot b[MAX_TASKS]; pthread_t th[MAX_TASKS];
   pthread_mutex_lock(&co_mu); co_cur = -1; pthread_mutex_unlock(&co_mu);
   for (int t = 0; t < n; t++) {
@@ -352,20 +372,7 @@ void run_tasks(int n, void (*body)(int, void *), void *arg, size_t) {
   stat("co_switches", co_switches);
   co_n = 0;
 }
-#else
-static void *boot(void *p) { Boot *b = (Boot *)p; set_cur_task(b->task); b->body(b->task, b->arg); return nullptr; }
-void run_tasks(int n, void (*body)(int, void *), void *arg, size_t) {
-  for (int t = 0; t < n; t++) {
-    pthread_attr_t a; pthread_attr_init(&a);
-    pthread_attr_setstack(&a, g_stack[t].lo, g_stack[t].size);
-    Boot b{body, arg, t}; pthread_t th;
-    if (pthread_create(&th, &a, boot, &b)) { perror("pthread_create"); _exit(2); }
-    pthread_join(th, nullptr);
-    pthread_attr_destroy(&a);
-  }
-}
-#endif
-J end_run() { return J::obj(); }
+J end_run() { J o = J::obj(); o["midcall_switches"] = (long long)co_switches; o["coarse"] = 1; return o; }
 }  // namespace thr
 #endif
 
@@ -469,7 +476,8 @@ static void on_release(int task, const void *p, size_t size, ReqKind how, const 
     // C09-4 / C14: an undersized crypt_ra block must be erased over its recorded size before the library lets go of
     // it, whether it grows it with realloc or replaces it with malloc + free
     Slot *s = slot_of(r, p);
-    if (s && s->size > 0 && (r.o_c09 || r.o_c14)) {
+    if (s && s->size >= (int)CD && (r.o_c09 || r.o_c14)) stat("incidental_ra_released_a_block_that_was_large_enough");   // a trim or a replacement: no erase clause applies
+    if (s && s->size > 0 && s->size < (int)CD && (r.o_c09 || r.o_c14)) {
       size_t n = std::min((size_t)s->size, size);
       stat("probe_growth_from_small_block");
       if (!all_zero(p, n))
@@ -615,13 +623,14 @@ struct OpFaultView {
   int injected = 0;            // failures we injected that the library saw
   int effective = 0;           // ... not counting a refused huge-page attempt that the plain retry made good
   int hugetlb_fallbacks = 0;
+  int soft = 0;                // failed memory system calls other than the four the statement names (madvise, mlock, ...)
   bool munmap_failed = false;
   std::string desc;
 };
 static OpFaultView fault_view(int t) {
   OpFaultView v;
   auto &rq = MemLayer::get().op_reqs[t];
-  static const char *kn[] = {"malloc", "realloc", "free", "mmap", "munmap"};
+  static const char *kn[] = {"malloc", "realloc", "free", "mmap", "munmap", "memory-syscall"};
   for (size_t a = 0; a < rq.size(); a++) {
     if (!rq[a].failed) continue;
     bool made_good = false;
@@ -631,6 +640,7 @@ static OpFaultView fault_view(int t) {
         // below size + H, hence at most twice the size for any region the attempt makes sense for)
         if (rq[b].kind == RQ_MMAP && !rq[b].failed && rq[b].size <= rq[a].size && rq[a].size <= 2 * rq[b].size + (2u << 20)) { made_good = true; break; }
     if (rq[a].injected) v.injected++;
+    if (rq[a].kind == RQ_SYSCALL) { v.soft++; continue; }   // not one of malloc/realloc/mmap/munmap: the statement does not say the call must fail
     if (made_good) { v.hugetlb_fallbacks++; continue; }
     v.effective++;
     if (rq[a].kind == RQ_MUNMAP) v.munmap_failed = true;
@@ -860,6 +870,7 @@ static void exec_hash(Run &r, int t, int i, const J &op) {
     if (exp.bad) crash_exit("machinery", ("refsrv: " + exp.raw).c_str());
   }
   bool exp_fail = must_fail || !exp.ok;
+  if (fv.soft > 0 && c.failed && !exp_fail) { exp_fail = true; stat("call_failed_after_memory_syscall_fault"); }   // may fail (cleanly) or carry on
 
   if (phrase_in_output || args_in_slot_block) {
     stat(c.failed ? "aliased_args_call_failed" : "aliased_args_call_succeeded");
@@ -886,6 +897,29 @@ static void exec_hash(Run &r, int t, int i, const J &op) {
       violation(nullptr, "result", t, i, vfmt("%s(.., %s) returned \"%s\" here but \"%s\" when evaluated alone on a fresh object", c.kind.c_str(), c.setting.b.c_str(), c.res.c_str(), exp.str.c_str()));
     } else if (!c.failed && c.have_out && c.out_str != c.res) {
       violation(nullptr, "result", t, i, vfmt("%s returned \"%s\" but the output field holds \"%s\"", c.kind.c_str(), c.res.c_str(), c.out_str.c_str()));
+    }
+  }
+  // ---------------- C17, last sentence: for salt 0 the block function of the DES-based hashes is plain DES
+  if (r.o_c17 && !c.failed && !c.phrase.null && c.phrase.b.size() <= 8 && !c.setting.null) {
+    const std::string &st = c.setting.b; unsigned long cnt = 0; size_t pre = 0;
+    static const char a64[] = "./0123456789ABCDEFGHIJKLMNOPQRSTUVWXYZabcdefghijklmnopqrstuvwxyz";
+    if (st.size() >= 2 && st[0] == '.' && st[1] == '.' && (st.size() == 2 || st.size() == 13)) { cnt = 25; pre = 2; }
+    else if (st.size() >= 9 && st[0] == '_' && !st.compare(5, 4, "....")) {
+      bool okc = true; for (int q = 0; q < 4; q++) { const char *z = strchr(a64, st[(size_t)(1 + q)]); if (!z || !st[(size_t)(1 + q)]) { okc = false; break; } cnt |= (unsigned long)(z - a64) << (6 * q); }
+      if (okc && cnt >= 1 && cnt <= 400) pre = 9; else cnt = 0;
+    }
+    if (cnt && c.res.size() == pre + 11 && !c.res.compare(0, pre, st, 0, pre)) {
+      unsigned char key[8] = {0}, blk[8] = {0}, out[8];
+      for (size_t q = 0; q < c.phrase.b.size(); q++) key[q] = (unsigned char)((unsigned char)c.phrase.b[q] << 1);
+      for (unsigned long it = 0; it < cnt; it++) { des_model_crypt(key, blk, out, false); memcpy(blk, out, 8); }
+      std::string e; const unsigned char *sp = blk, *end = blk + 8;
+      for (;;) { unsigned c1 = *sp++; e += a64[c1 >> 2]; c1 = (c1 & 3) << 4; if (sp >= end) { e += a64[c1]; break; }
+                 unsigned c2 = *sp++; c1 |= c2 >> 4; e += a64[c1]; c1 = (c2 & 15) << 2; if (sp >= end) { e += a64[c1]; break; }
+                 c2 = *sp++; c1 |= c2 >> 6; e += a64[c1]; e += a64[c2 & 63]; if (sp >= end) break; }
+      stat("probe_des_hash_salt0_checked_against_model");
+      if (c.res.substr(pre) != e)
+        violation(nullptr, "des-hash-salt0", t, i, vfmt("%s(.., %s): with salt 0 the hash is DES applied %lu times to the zero block under the passphrase's key; the model gives \"%s\", the library returned \"%s\"",
+                                                        c.kind.c_str(), st.c_str(), cnt, e.c_str(), c.res.substr(pre).c_str()));
     }
   }
   // ---------------- a "successful" result must be a hash of the passphrase
@@ -1439,6 +1473,7 @@ static void exec_prim(Run &r, int t, int i, const J &op) {
 
 static void exec_op(Run &r, int t, int i, const J &op) {
   set_cur_op(t, i);
+  if (op.has("clock")) { g_sim_clock += op.i("clock"); stat("probe_clock_moved_between_calls"); ev(vfmt("clock %+lld", (long long)op.i("clock"))); }
   g_call_on_new_thread = op.i("newthread") != 0 && r.ntasks == 1;
   if (g_call_on_new_thread) stat("probe_call_on_fresh_thread");
   std::string k = op.str("k");
@@ -1475,7 +1510,7 @@ static RunOut run_plan(const J &plan, uint64_t fill_override, bool use_override)
   g_viol = Violation(); g_viol_extra = 0; g_trace_hash = 0xcbf29ce484222325ULL; g_events = 0; g_event_text.clear(); g_stats.clear();
   g_run_seed = (uint64_t)plan.i("seed");
   g_phase = "run";
-  alarm(180);   // a run is milliseconds to a few seconds; anything near this is a generator mistake, never a verdict
+  alarm(600);   // a run is milliseconds to a few seconds (rarely a minute: GiB regions, ten million rounds); anything near this is a generator mistake, never a verdict
   const std::string &p = g_prop;
   r.o_ref = (p == "C07" || p == "C08" || p == "C17" || p == "C14" || p == "C09" || p == "C12");
   r.o_c05 = p == "C05"; r.o_c09 = p == "C09"; r.o_c12 = p == "C12"; r.o_c14 = p == "C14"; r.o_c15 = p == "C15"; r.o_c17 = (p == "C17" || p == "C08");
@@ -1486,6 +1521,7 @@ static RunOut run_plan(const J &plan, uint64_t fill_override, bool use_override)
   MemEnv env; env.fill_seed = use_override ? fill_override : (uint64_t)plan.at("env").i("fill_seed", 1);
   env.realloc_move = plan.at("env").i("realloc_move", 1) != 0;
   env.map_limit = (size_t)plan.at("env").i("map_limit_mib", 0) << 20;
+  env.soft_fault_pct = (int)plan.at("env").i("soft_fault_pct", 0);
   MemLayer &ml = MemLayer::get();
   ml.begin_run(env);
   EntropyDev::get().begin_run((uint64_t)plan.at("env").i("entropy_seed", (long long)g_run_seed));
@@ -1533,6 +1569,10 @@ static RunOut run_plan(const J &plan, uint64_t fill_override, bool use_override)
     // case mapping look at - so it is selected for that category; an installed locale is selected as a whole)
     if (!setlocale(loc.compare(0, 5, "xx_XX") == 0 ? LC_CTYPE : LC_ALL, loc.c_str())) { stat("locale_unavailable"); loc = "C"; } else stat("probe_runs_in_non_C_locale_" + loc);
   }
+#ifndef SIM_THR
+  thr::g_co_hold_after_mmap = plan.at("schedule").i("hold_after_mmap") != 0;
+#endif
+  g_sim_clock = 1700000000LL + plan.at("env").i("clock0", 0) + (use_override ? 86400LL * 37 + 4242 : 0);   // the second pass of a purity run lives at another time
   g_stack_garbage_seed = (p == "C07") ? (env.fill_seed * 0x9e3779b97f4a7c15ULL | 1) : 0;
   thr::run_tasks(r.ntasks, task_body, &r, TASK_STACK_SIZE);
   g_stack_garbage_seed = 0;
@@ -1595,7 +1635,8 @@ static RunOut run_plan(const J &plan, uint64_t fill_override, bool use_override)
   for (auto &kv : g_stats) st[kv.first] = (long long)kv.second;
   for (auto &kv : ml.stats) st[kv.first] = (long long)kv.second;
   res["stats"] = st;
-  if (thrinfo.t == J::OBJ && thrinfo.size()) res["thr"] = thrinfo;
+  if (thrinfo.t == J::OBJ && thrinfo.size() && !thrinfo.i("coarse")) res["thr"] = thrinfo;
+  if (thrinfo.i("coarse") && r.ntasks > 1) res["coarse_switches"] = thrinfo.i("midcall_switches");
   out.result = res; out.transcript = r.results;
   g_run = nullptr; g_phase = "idle"; alarm(0);
   return out;
